@@ -16,6 +16,7 @@ import (
 	"os"
 	"path/filepath"
 	"sync"
+	"sync/atomic"
 	"time"
 
 	"github.com/btcsuite/btcd/btcutil/hdkeychain"
@@ -614,4 +615,56 @@ func managerCase(r *evid.Run, rg *rand.Rand, cs int64) {
 			r.Hit("manager_passphrase_states_checked", 1)
 		}
 	}
+	// Encrypt racing with Lock: every ciphertext Manager.Encrypt hands out while
+	// another goroutine locks and unlocks the manager must be a ciphertext under
+	// the real private crypto key (it round-trips once unlocked again) and must
+	// not open under the all-zero key a wiped key buffer amounts to.
+	if err := unlock(cur); err != nil {
+		r.Violation("manager-current-passphrase-rejected", "before the Encrypt/Lock race: "+err.Error(), "manager", cs, nil)
+		return
+	}
+	type rec struct{ pt, ct []byte }
+	var recs []rec
+	var stop int32
+	var wg sync.WaitGroup
+	wg.Add(1)
+	go func() {
+		defer wg.Done()
+		for atomic.LoadInt32(&stop) == 0 {
+			m.Lock()
+			unlock(cur)
+		}
+	}()
+	nenc := r.N(6000, 60000)
+	for k := 0; k < nenc; k++ {
+		pt := []byte(fmt.Sprintf("plaintext-%d-%d", cs&0xffff, k))
+		ct, err := m.Encrypt(waddrmgr.CKTPrivate, pt)
+		if err == nil {
+			recs = append(recs, rec{pt, ct})
+		}
+	}
+	atomic.StoreInt32(&stop, 1)
+	wg.Wait()
+	if err := unlock(cur); err != nil {
+		r.Violation("manager-current-passphrase-rejected", "after the Encrypt/Lock race: "+err.Error(), "manager", cs, nil)
+		return
+	}
+	var zeroKey [32]byte
+	for _, rc := range recs {
+		if len(rc.ct) > 24 {
+			var nonce [24]byte
+			copy(nonce[:], rc.ct[:24])
+			if _, ok := secretbox.Open(nil, rc.ct[24:], &nonce, &zeroKey); ok {
+				r.Violation("manager-encrypt-under-wiped-key", fmt.Sprintf("Manager.Encrypt(CKTPrivate) returned success while another goroutine was locking the manager, and the ciphertext opens under the ALL-ZERO key (%d of %d encryptions succeeded)", len(recs), nenc), "manager", cs, nil)
+				return
+			}
+		}
+		out, err := m.Decrypt(waddrmgr.CKTPrivate, rc.ct)
+		if err != nil || !bytes.Equal(out, rc.pt) {
+			r.Violation("manager-roundtrip-after-lock-race", fmt.Sprintf("a ciphertext Manager.Encrypt(CKTPrivate) handed out while another goroutine was locking / unlocking does not decrypt under the same manager afterwards: %v", err), "manager", cs, nil)
+			return
+		}
+	}
+	r.Hit("manager_encryptions_racing_with_lock", len(recs))
+
 }
